@@ -27,6 +27,17 @@ theorem capOf_le_fin (n : Nat) (cap : Option Nat) :
 
 /-! ## `Resource._do_put` / `_do_get` -/
 
+/-- the free-slot test of `Resource._do_put` is `hasRoom` -/
+theorem resource_guard (rr : ResRec) (n : Nat) :
+    (Gen.Resource.do_put (resObj (τ := τ) rr) (n : Int)).ret = hasRoom rr.capacity n := by
+  unfold Gen.Resource.do_put
+  by_cases h : hasRoom rr.capacity n = true
+  · have h' : ExtInt.fin (n : Int) < (resObj (τ := τ) rr).capacity := (fin_lt_capOf _ _).2 h
+    rw [if_pos h', h]
+  · have h' : ¬ ExtInt.fin (n : Int) < (resObj (τ := τ) rr).capacity := mt (fin_lt_capOf _ _).1 h
+    rw [if_neg h']
+    simpa using h
+
 theorem resource_do_put (s : KState τ σ) (r : ResId) (e : EvId)
     (hk : (s.res r).kind = .resource ∨ (s.res r).kind = .priority) :
     runEff { r := r, e := e } (Gen.Resource.do_put (resObj (s.res r)) (s.res r).users.length).eff s = some (doPut s r e).1 ∧
